@@ -698,7 +698,7 @@ package grpctunnel
 
 //@ type tunnelChannel
 //@   field stream, tunnelMetadata, serverSendsSettings, tunnelOpts, ctx, cancel, tearDown immutable
-//@   field awaitSettings immutable signal
+//@   field awaitSettings immutable signal closedby func:recvLoop
 //@   field settings, useRevision published_by awaitSettings
 //@   field streams, lastStreamID, streamCreated, err, finished guarded_by mu
 //@   field mu, streamCreation monitor
@@ -1015,4 +1015,61 @@ package grpctunnel
 //@     assert[C05,C13] @creditframe arg0.StreamId == streamID && arg0.Frame is *tunnelpb.ClientToServer_WindowUpdate && as(arg0.Frame, *tunnelpb.ClientToServer_WindowUpdate).WindowUpdate == windowUpdate
 //@   ensures[C05,C13] @atmostone count("carrierSend") <= 1
 //@   assigns nothing
+//@   nopanic[C09]
+
+// ----- client: receive loop and negotiation --------------------------------------------
+
+//@ func inSlice
+//@   assigns nothing
+//@   loop 1 invariant[C11] @notyet forall j int :: 0 <= j && j <= rangeindex ==> slice[j] != find
+//@   ensures[C11] @absent  !result ==> forall j int :: 0 <= j && j < len(slice) ==> slice[j] != find
+//@   ensures[C11] @present result ==> !(forall j int :: 0 <= j && j < len(slice) ==> slice[j] != find)
+//@   nopanic[C09]
+
+// The revisions this end supports (options.go): zero always, one unless flow control is disabled.
+//@ spec func supportedRev(o, r) = r == 0 || (r == 1 && !o.disableFlowControl)
+
+//@ func (*tunnelChannel).recvLoop
+//@   requires c.useRevision == 0 && c.settings == nil && !isClosed(c.awaitSettings)
+//@   ghost w int = 0
+//@   ghost recvErr error = nil
+//@   ghost getErr error = nil
+//@   at store useRevision#1
+//@     ghost w = rangeindex + 1
+//@   at aftercall Recv#2
+//@     ghost recvErr = result1
+//@   at aftercall getStream#1
+//@     ghost getErr = result1
+//@   loop 1 invariant[C11] @upper   forall j int :: 0 <= j && j <= rangeindex && supportedRev(c.tunnelOpts, settings.Settings.SupportedProtocolRevisions[j]) ==> settings.Settings.SupportedProtocolRevisions[j] <= c.useRevision
+//@   loop 1 invariant[C11] @witness c.useRevision == 0 || (0 <= w && w <= rangeindex && settings.Settings.SupportedProtocolRevisions[w] == c.useRevision && supportedRev(c.tunnelOpts, c.useRevision))
+//@   loop 1 invariant[C11] @none    !supported ==> len(settings.Settings.SupportedProtocolRevisions) > 0 && forall j int :: 0 <= j && j <= rangeindex ==> !supportedRev(c.tunnelOpts, settings.Settings.SupportedProtocolRevisions[j])
+//@   loop 1 invariant[C11] @range   rangeindex < len(settings.Settings.SupportedProtocolRevisions)
+//@   loop 1 invariant[C11] @state   c.settings == nil && !isClosed(c.awaitSettings) && c.serverSendsSettings && count("close") == 0 && count("call:close") == 0
+//@   loop 1 invariant[C11] @revs    len(supportedRevisions) >= 1 && supportedRevisions[0] == 0 && (c.tunnelOpts.disableFlowControl ==> len(supportedRevisions) == 1) && (!c.tunnelOpts.disableFlowControl ==> len(supportedRevisions) == 2 && supportedRevisions[1] == 1)
+//@   loop 2 invariant[C04,C11] @running isClosed(c.awaitSettings) && count("call:close") == 0
+//@   at close#1
+//@     assert[C11] @legacy     !c.serverSendsSettings ==> c.useRevision == 0 && c.settings == nil
+//@     assert[C11] @highest    c.serverSendsSettings ==> forall j int :: 0 <= j && j < len(c.settings.SupportedProtocolRevisions) && supportedRev(c.tunnelOpts, c.settings.SupportedProtocolRevisions[j]) ==> c.settings.SupportedProtocolRevisions[j] <= c.useRevision
+//@     assert[C11] @common     c.serverSendsSettings ==> c.useRevision == 0 || (0 <= w && w < len(c.settings.SupportedProtocolRevisions) && c.settings.SupportedProtocolRevisions[w] == c.useRevision && supportedRev(c.tunnelOpts, c.useRevision))
+//@     assert[C11,C09] @settingsset c.serverSendsSettings ==> c.settings != nil
+//@     assert[C11] @once       count("close") == 0 && count("call:close") == 0
+//@   at call close#1
+//@     assert[C04,C11] @readfail arg1 != nil && count("close") == 0
+//@   at call close#2
+//@     assert[C09,C11] @badid arg1 != nil && in.StreamId != -1 && count("close") == 0
+//@   at call close#3
+//@     assert[C09,C11] @notsettings arg1 != nil && count("close") == 0
+//@   at call close#4
+//@     assert[C11] @nocommon arg1 != nil && count("close") == 0 && len(settings.Settings.SupportedProtocolRevisions) > 0 && forall j int :: 0 <= j && j < len(settings.Settings.SupportedProtocolRevisions) ==> !supportedRev(c.tunnelOpts, settings.Settings.SupportedProtocolRevisions[j])
+//@   at call close#5
+//@     assert[C03,C04,C09] @carrier arg1 == recvErr && recvErr != nil
+//@   at call close#6
+//@     assert[C03,C09] @unknownid arg1 == getErr && getErr != nil
+//@   at call getStream#1
+//@     assert[C01,C03] @demux arg1 == in.StreamId
+//@   at call acceptServerFrame#1
+//@     assert[C01,C03] @dispatch arg1 == in.Frame && getErr == nil
+//@   ensures[C04,C14] @closesfirst count("call:close") == 1
+//@   locks c.mu, str.ch.mu, str.metaMu
+//@   assigns *
 //@   nopanic[C09]
